@@ -29,6 +29,9 @@ GENERICS = {
     "ty": dict(decl="<T: Default + Clone + PartialEq + ::core::fmt::Debug>", inst="<u16>", tparam="u16"),
     "tywhere": dict(decl="<T>", where=" where T: Default + Clone + PartialEq + ::core::fmt::Debug", inst="<u16>", tparam="u16"),
     "lt": dict(decl="<'a>", inst="<'static>", tparam=None),
+    "tydef": dict(decl="<T: Default + Clone + PartialEq + ::core::fmt::Debug = u8>", impl_decl="<T: Default + Clone + PartialEq + ::core::fmt::Debug>",
+                  inst="<u16>", tparam="u16"),
+    "constdef": dict(decl="<const N: usize = 2>", impl_decl="<const N: usize>", inst="<3>", tparam=None),
     "const": dict(decl="<const N: usize>", inst="<3>", tparam=None),
     "tyconst": dict(decl="<T: Default + Clone + PartialEq + ::core::fmt::Debug, const N: usize>", inst="<u16, 2>", tparam="u16"),
 }
@@ -134,18 +137,28 @@ def variant_attr_items(v):
 
 
 def print_variant(v, split, with_strum=True, indent="    "):
-    lines = []
-    for d in v["docs"]:
-        lines.append("%s#[doc = %s]" % (indent, rs_str(d)))
+    docs = ["%s#[doc = %s]" % (indent, rs_str(d)) for d in v["docs"]]
+    strum = []
     items = variant_attr_items(v) if with_strum else []
     if items:
         if split:
-            for i in items:
-                lines.append("%s#[strum(%s)]" % (indent, i))
+            strum = ["%s#[strum(%s)]" % (indent, i) for i in items]
         else:
-            lines.append("%s#[strum(%s)]" % (indent, ", ".join(items)))
-    for x in v.get("xattrs", []):
-        lines.append(indent + x)
+            strum = ["%s#[strum(%s)]" % (indent, ", ".join(items))]
+    others = [indent + x for x in v.get("xattrs", [])]
+    if v.get("order") and split and len(strum) >= 2 and (docs or others):
+        # non-strum attributes (doc comments, #[allow], ...) may stand BETWEEN two #[strum(..)] attributes;
+        # doc lines keep their relative order, strum attributes keep theirs
+        import random as _r
+        rng = _r.Random(v["order"] * 7 + 1)
+        lines = list(strum)
+        pos = sorted(rng.randrange(len(lines) + 1) for _ in docs)
+        for k, (p, d) in enumerate(zip(pos, docs)):
+            lines.insert(p + k, d)
+        for x in others:
+            lines.insert(rng.randrange(len(lines) + 1), x)
+    else:
+        lines = docs + strum + others
     ident = uncp(v["id"])
     if v["kind"] == "unit":
         body = ident
@@ -240,7 +253,7 @@ def _fval(E, f, which):
         tp = GENERICS[E["generics"]]["tparam"]
         return ["0%s" % tp, "41%s" % tp, "42%s" % tp][which]
     if f["ty"] == "arr":
-        n = "3" if E["generics"] == "const" else "2"
+        n = "3" if E["generics"] in ("const", "constdef") else "2"
         return ["Arr::<%s>::default()" % n, "Arr::<%s>::filled(5)" % n, "Arr::<%s>::filled(6)" % n][which]
     return t[1 + which]
 
@@ -275,8 +288,8 @@ def helper_impl(E):
     n = E["name"]
     decl = g["decl"]
     # type generics without bounds
-    tg = {"none": "", "ty": "<T>", "tywhere": "<T>", "lt": "<'a>", "const": "<N>", "tyconst": "<T, N>"}[E["generics"]]
-    lines = ["impl%s %s%s%s {" % (decl, n, tg, g.get("where", ""))]
+    tg = {"none": "", "ty": "<T>", "tywhere": "<T>", "lt": "<'a>", "const": "<N>", "tyconst": "<T, N>", "tydef": "<T>", "constdef": "<N>"}[E["generics"]]
+    lines = ["impl%s %s%s%s {" % (g.get("impl_decl", decl), n, tg, g.get("where", ""))]
     lines.append("    pub fn decl_index(&self) -> usize { match self {")
     for i, v in enumerate(E["variants"]):
         lines.append("        %s => %d," % (pattern(E, v), i + 1))
